@@ -362,6 +362,162 @@ def castle_moves_by_cases(ix, b):
     return rows
 
 
+GENERATORS = {"Knight": ("knight", 1), "King": ("king", 1), "Rook": ("rook", 2), "Bishop": ("bishop", 2), "Queen": ("queen", 2)}
+
+
+def _own_field(e):
+    """`!board.bitboards.<side>_pieces` -> '<side>_pieces'."""
+    e = mir.strip_copies(e)
+    if e[0] == "call" and e[1].endswith("std::ops::Not>::not") and len(e[2]) == 1:
+        e = mir.strip_copies(e[2][0])
+    elif e[0] == "un" and e[1] == "Not":
+        e = mir.strip_copies(e[2])
+    else:
+        return None
+    return e[-1] if e[0] == "field" and e[-1] in ("white_pieces", "black_pieces") and "bitboards" in e else None
+
+
+def rule_generators(ctx):
+    """Knight, bishop, rook, queen and king (castling aside): the pseudo-legal moves are exactly
+    { Ply::new(square, s, Kind::P(color)) : s a set bit of P::get_attacks(square[, all pieces]) & !own pieces }."""
+    from . import cases
+    ix = ctx.ix
+    for P, (mod, nargs) in sorted(GENERATORS.items()):
+        key = "<board::piece::%s::%s as board::piece::Piece>::get_moveset" % (mod, P)
+        b = ctx.body(key)
+        sym = ctx.sym(b)
+        sqp = [b.local_name(l) for l in range(1, b.arg_count + 1) if b.locals[l]["ty"].lstrip("&") == "board::square::Square"]
+        cop = [b.local_name(l) for l in range(1, b.arg_count + 1) if b.locals[l]["ty"].lstrip("&") == "board::piece::Color"]
+        if len(sqp) != 1 or len(cop) != 1:
+            ctx.check(False, "generators:%s:signature" % P, "get_moveset(square, board, color)", b.where(0), bad_what="%s::get_moveset does not take one square and one colour" % P)
+            continue
+        for col, own in (("White", "white_pieces"), ("Black", "black_pieces")):
+            run = cases.run(ix, b, {cop[0]: cases.enum_val(ix, "board::piece::Color", col)})
+            tag = "generators:%s:%s" % (P, col)
+            if run.overflow or not [p for p in run.paths if p.end == "return"]:
+                ctx.check(False, tag + ":readable", "the generator can be walked with the colour fixed", b.where(0), bad_what="%s::get_moveset cannot be walked for %s: cannot decide" % (P, col))
+                continue
+            masks = {}
+            plain = []          # (start, dest, piece) of every Ply::new met on any path
+            mapped = []         # (source of the mapped squares, closure)
+            rets = set()
+            for p in run.paths:
+                if p.end in ("panic", "unreachable"):
+                    continue
+                if p.end == "return":
+                    rets.add(p.ret)
+                for e in p.events:
+                    if e[0] != "call":
+                        continue
+                    if e[2].endswith("std::ops::BitAnd>::bitand") and len(e[3]) == 2:
+                        for a, o in ((e[3][0], e[3][1]), (e[3][1], e[3][0])):
+                            a = mir.strip_copies(a)
+                            if a[0] == "call" and a[1].rsplit("::", 1)[-1].startswith("get_attacks") and _own_field(o) is not None:
+                                masks[("call", e[2], tuple(e[3]))] = (a, _own_field(o))
+                    elif e[2] == "board::ply::Ply::new" and len(e[3]) == 3:
+                        plain.append(tuple(e[3]))
+                    elif e[2] == "std::iter::Iterator::map" and len(e[3]) == 2:
+                        mapped.append(tuple(e[3]))
+            mapped = sorted(set(mapped), key=repr)
+            plain = sorted(set(plain), key=repr)
+            ok = len(masks) == 1
+            why = "%d target masks of the form get_attacks(..) & !<side>_pieces" % len(masks)
+            mask = None
+            if ok:
+                mask, (atk, ownf) = next(iter(masks.items()))
+                args = [mir.strip_copies(x) for x in atk[2]]
+                right_piece = ("::%s::%s" % (mod, P)) in atk[1] or atk[1].startswith("<board::piece::%s::%s as " % (mod, P))
+                sq_ok = len(args) == nargs and args[0] == ("arg", sqp[0])
+                occ_ok = nargs == 1 or (args[1][0] == "field" and args[1][-1] == "all_pieces" and "bitboards" in args[1])
+                ok = right_piece and sq_ok and occ_ok and ownf == own
+                why = "the target mask is `%s` with own pieces `%s`" % (expr_str(atk)[:100], ownf)
+            ctx.check(ok, tag + ":target-mask", "targets = %s::get_attacks(square%s) & !board.bitboards.%s" % (P, ", all_pieces" if nargs == 2 else "", own), b.where(0),
+                      bad_what="%s of %s: %s; expected %s::get_attacks(square%s) & !%s" % (P, col, why, P, ", board.bitboards.all_pieces" if nargs == 2 else "", own))
+            if not ok:
+                continue
+            want_piece = ("agg", "board::piece::Kind", P)
+
+            def move_ok(start, dest_is, piece):
+                start, piece = mir.strip_copies(mir.strip_refs(start)), mir.strip_copies(mir.strip_refs(piece))
+                return start == ("arg", sqp[0]) and dest_is and piece[:3] == want_piece and len(piece[3]) == 1 and mir.strip_copies(mir.strip_refs(piece[3][0]))[:3] == ("agg", "board::piece::Color", col)
+
+            n_sources = 0
+            good = True
+            detail = ""
+            # (a) squares.into_iter().map(|s| Ply::new(square, s, Kind::P(color))).collect() over Vec::from(mask)
+            for src, clo in mapped:
+                n_sources += 1
+                it = src[2][0] if src[0] == "call" and src[1].endswith("IntoIterator>::into_iter") and len(src[2]) == 1 else None
+                conv = it is not None and it[0] == "call" and (it[1].endswith("Into<U>>::into") or it[1] == c06_bitvec()) and len(it[2]) == 1 and mir.strip_copies(it[2][0]) == mask
+                conv = conv and _into_is_square_list(b)
+                clo = mir.strip_copies(clo)
+                cb = ix.bodies.get(clo[1]) if clo[0] == "closure" else None
+                res = None
+                if cb is not None and cb.arg_count == 2:
+                    env = ("agg", "closure", None, tuple(("ref", c[1]) if c[0] == "ref" and len(c) == 3 else c for c in clo[2]))   # captured values, not the caller's places
+                    sub = cases.run(ix, cb, {cb.local_name(1): ("ref", env) if cb.locals[1]["ty"].startswith("&") else env})
+                    rr = [p for p in sub.paths if p.end == "return"]
+                    if not sub.overflow and len(rr) == 1 and len(sub.paths) == 1 and not [e for e in rr[0].events if e[0] == "store"]:
+                        res = mir.strip_copies(rr[0].ret)
+                        ctx.functions.add(cb.key)
+                m_ok = res is not None and res[0] == "call" and res[1] == "board::ply::Ply::new" and len(res[2]) == 3 and move_ok(res[2][0], mir.strip_copies(res[2][1]) == ("arg", cb.local_name(2)), res[2][2])
+                whole = any(mir.strip_copies(r) == ("call", "std::iter::Iterator::collect", (("call", "std::iter::Iterator::map", (src, clo)),)) for r in rets) and len(rets) == 1
+                if not (conv and m_ok and whole):
+                    good = False
+                    detail = "squares come from `%s`, each mapped to `%s`%s" % (expr_str(src)[:90], expr_str(res)[:90] if res is not None else "?", "" if whole else "; the collected list is not what is returned")
+            # (b) a loop that pops the mask's bits and pushes Ply::new(square, Square::from(bit), Kind::P(color))
+            if plain:
+                n_sources += 1
+                site = [(bi, t) for bi, t in b.calls() if callee_is(t, "board::ply::Ply::new")]
+                pushes = [(bi, t) for bi, t in b.calls() if callee_is(t, "std::vec::Vec::push", "std::vec::Vec::<T, A>::push") and mir.strip_copies(sym.operand(t["args"][1]))[:2] == ("call", "board::ply::Ply::new")]
+                why, info = (C.pop_loop(b, sym, pushes[0][0]) if len(pushes) == 1 and len(site) == 1 else ("%d Ply::new sites, %d of them pushed" % (len(site), len(pushes)), None))
+                if why is None:
+                    for st, d, pc in plain:
+                        d = mir.strip_copies(d)
+                        while d[0] == "call" and d[1].endswith("Square as std::convert::From<u8>>::from") and len(d[2]) == 1 or d[0] == "cast":
+                            d = mir.strip_copies(d[2][0] if d[0] == "call" else d[1])
+                        from_mask = d[0] == "call" and d[1] == info["index"][1] and len(d[2]) == 1 and mir.strip_copies(mir.strip_refs(d[2][0])) == mask
+                        if not move_ok(st, from_mask, pc):
+                            why = "a move is built as Ply::new(%s, %s, %s)" % (expr_str(st)[:40], expr_str(d)[:80], expr_str(pc)[:40])
+                    vec = mir.strip_refs(sym.operand(pushes[0][1]["args"][0]))
+                    if why is None and not (info["once"](pushes[0][0]) and _returned_list(b, sym, vec)):
+                        why = "the move is not pushed exactly once per bit onto the list that is returned"
+                if why is not None:
+                    good = False
+                    detail = why
+            ctx.check(good and n_sources == 1, tag + ":one-move-per-target", "every set bit s of the target mask yields exactly Ply::new(square, s, Kind::%s(%s)), and nothing else does" % (P, col), b.where(0),
+                      bad_what="%s of %s: %s" % (P, col, detail or "%d sources of plain moves" % n_sources))
+
+
+def _returned_list(b, sym, vec):
+    """Is the local list `vec` what the function returns, directly or moved through other locals on every return?"""
+    if vec[0] != "var":
+        return False
+    same = {vec}
+    for _round in range(4):
+        for l in range(len(b.locals)):
+            ds = b.defs().get(l, [])
+            if ds and all(d[2].get("k") not in ("call", "partial") and mir.strip_copies(sym.rvalue(d[2])) in same for d in ds):
+                same.add(("var", b.local_name(l)))
+    return mir.strip_copies(sym.local(0)) in same
+
+
+def c06_bitvec():
+    from . import c06
+    return c06.BITVEC
+
+
+def _into_is_square_list(b):
+    """Every `.into()` in the generator is Bitboard -> Vec<Square> (the conversion C06.bit-iteration decides)."""
+    ok = True
+    n = 0
+    for bi, t in b.calls():
+        if (t.get("callee") or "").endswith("Into<U>>::into"):
+            n += 1
+            ok = ok and t["dest"]["ty"] == "std::vec::Vec<board::square::Square>" and t["args"] and (t["args"][0].get("move") or t["args"][0].get("copy") or {}).get("ty") == "board::bitboard::Bitboard"
+    return ok and n >= 1
+
+
 def rule_castle_moves(ctx):
     ix = ctx.ix
     b = ctx.body(KING_MS)
@@ -888,11 +1044,11 @@ def rule_leaf_accessors(ctx):
 
 
 RULES = [("leaf-accessors", rule_leaf_accessors), ("square-arith", rule_square_arith), ("ply-builder", rule_ply_builder), ("filter", rule_filter), ("probe", rule_probe), ("check-mirror", rule_check_mirror), ("castle-pre", rule_castle_pre), ("castle-masks", rule_castle_masks),
-         ("castle-moves", rule_castle_moves), ("pawn-table", rule_pawn_table), ("dispatch", rule_dispatch), ("capture-src", rule_capture_src), ("square-loops", rule_square_loops)]
+         ("castle-moves", rule_castle_moves), ("generators", rule_generators), ("pawn-table", rule_pawn_table), ("dispatch", rule_dispatch), ("capture-src", rule_capture_src), ("square-loops", rule_square_loops)]
 # what the clauses above take for granted, decided here as well: the attack tables the generators read (C06), make/unmake
 # leaving the position intact around the legality probe (C02), and the bookkeeping that later move generation depends on
 # (castling rights, en-passant file, piece placement: C03)
-RULES += engine.premise_rules("c06", ["bitboard-ops", "rays", "magic", "scheme", "mask-edges", "ray-walk", "leapers", "subset-enum"])
+RULES += engine.premise_rules("c06", ["bitboard-ops", "rays", "magic", "scheme", "mask-edges", "ray-walk", "leapers", "subset-enum", "bit-iteration"])
 RULES += engine.premise_rules("c02", ["writeset", "stack", "counter", "ep-restore", "inverse-seq", "probe-pair"])
 RULES += engine.premise_rules("c03", ["revocation-table", "rights-monotone", "ep", "placement"])
 
